@@ -17,7 +17,7 @@
 (***************************************************************************)
 EXTENDS Common, Utf8, MatcherRef, TLC
 
-CONSTANTS Strs, Delims
+CONSTANTS Pairs      \* set of <<string, delimiter>> pairs
 
 VARIABLES kind, s, d, lo, hi, phase, fwd, hist
 vars == <<kind, s, d, lo, hi, phase, fwd, hist>>
@@ -94,7 +94,7 @@ DoNext     == IF kind = "rsplit_terminator" THEN BackStep ELSE IF fwd THEN Front
 DoNextBack == IF fwd THEN BackStep ELSE FrontStep
 
 Init == /\ kind \in {"split", "split_terminator", "rsplit_terminator"}
-        /\ s \in Strs /\ d \in Delims
+        /\ \E p \in Pairs : s = p[1] /\ d = p[2]
         /\ lo = 0 /\ hi = Len(s) /\ phase = (IF d = <<>> THEN "EmptyStart" ELSE "Normal")
         /\ fwd = TRUE /\ hist = <<>>
 
